@@ -5,7 +5,7 @@ from transactron.lib import BasicFifo, FIFO
 from ..comp.common import ComponentCheck
 from ..comp.models import FifoM, rand_payload
 
-DEPTHS = [1, 2, 3, 4, 5, 7, 8, 16]
+DEPTHS = [1, 2, 3, 4, 5, 6, 7, 8, 12, 16]  # 6 and 12: even but not a power of two (index wrap must be modulo the depth, not a mask; seeded defect C14e)
 
 
 def pick(rnd, i):
